@@ -62,7 +62,7 @@ Inductive body :=
 | BCopy
 | BCloneStruct (name : string) (sh : shape) (fs : list fld)
 | BCloneEnum (vs : list (string * shape * list fld))
-| BDebugStruct (d : debug_body)
+| BDebugStruct (d : debug_body) (dbl : option nat)   (* index of the last field when passed as `&&self.x` *)
 | BDebugEnum (vs : list (string * shape * list fld * debug_body))
 | BDefaultSelf (v : dvalue)                                         (* type-level value *)
 | BDefaultCtor (path : list string) (sh : shape) (vs : list (member * dvalue))
